@@ -29,6 +29,10 @@ type Server struct {
 	SessionSig func(valid []byte, clientCert, clientNonce []byte) []byte
 	// ServerCertOverride replaces the certificate returned in CreateSessionResponse
 	ServerCertOverride []byte
+	// SessionSigAlg replaces the algorithm URI of the CreateSession signature (C22): nil = the policy's URI
+	SessionSigAlg *string
+	// SessionSigNil leaves the ServerSignature field of the CreateSessionResponse out altogether
+	SessionSigNil bool
 
 	mu       sync.Mutex
 	Conns    []*SrvConn
@@ -220,7 +224,16 @@ func (s *Server) Default(sc *SrvConn, m *Msg) bool {
 			ServerNonce:           sess.Nonce,
 			ServerCertificate:     cert,
 			ServerEndpoints:       s.Endpoints(),
-			ServerSignature:       &ua.SignatureData{Algorithm: s.sigAlgURI(), Signature: sig},
+			ServerSignature: func() *ua.SignatureData {
+				if s.SessionSigNil {
+					return nil
+				}
+				alg := s.sigAlgURI()
+				if s.SessionSigAlg != nil {
+					alg = *s.SessionSigAlg
+				}
+				return &ua.SignatureData{Algorithm: alg, Signature: sig}
+			}(),
 		})
 	case *ua.ActivateSessionRequest:
 		sess := s.Session(req.RequestHeader.AuthenticationToken)
